@@ -67,7 +67,7 @@ type Meta struct {
 	Assumptions []string
 	Bounds      map[string]any
 	NeedRace    bool // workers must be the -race build
-	CaseTimeout time.Duration // watchdog per case (default 120 s)
+	CaseTimeout time.Duration // watchdog per case (default 90 s; a hang is believed when it repeats under twice the limit)
 	Level       string
 	Exhaustive  bool // the space enumerated at this tier is a complete finite space
 }
@@ -446,6 +446,11 @@ func ParentMain(o Options) int {
 			start := 0
 			restarts := 0
 			resume := "-"
+			// a hang is believed only when the same (case, sub-case) makes no progress a second time,
+			// in a fresh worker and with a doubled limit: on an overloaded machine a worker can be
+			// starved for longer than any fixed limit
+			suspect := map[string]bool{}
+			limitFactor := time.Duration(1)
 			for {
 				journal := filepath.Join(tmp, fmt.Sprintf("j%d", shard))
 				os.Remove(journal)
@@ -475,8 +480,9 @@ func ParentMain(o Options) int {
 				go func() {
 					limit := meta.CaseTimeout
 					if limit == 0 {
-						limit = 120 * time.Second
+						limit = 90 * time.Second
 					}
+					limit *= limitFactor
 					lastIdx, since := "", time.Now()
 					tk := time.NewTicker(2 * time.Second)
 					defer tk.Stop()
@@ -552,6 +558,21 @@ func ParentMain(o Options) int {
 					return
 				}
 				if h := atomic.LoadInt32(&hung); h >= 0 {
+					hp := strings.Split(strings.TrimSpace(hungText), ":")
+					key := fmt.Sprintf("%d|%s", h, hp[len(hp)-1])
+					if !suspect[key] {
+						suspect[key] = true
+						limitFactor = 2
+						start, resume = int(h), "-"
+						if len(hp) == 3 {
+							if sub, err := strconv.Atoi(hp[2]); err == nil && sub > 0 {
+								resume = fmt.Sprintf("%d:%d", h, sub-1)
+							}
+						}
+						restarts++
+						continue
+					}
+					limitFactor = 1
 					mu.Lock()
 					viols = append(viols, violRec{Idx: int(h), V: Violation{
 						Sig:  o.ID + "|hang",
